@@ -274,6 +274,10 @@ __CPROVER_requires(depth <= COP_DEPTH_LIMIT)
 __CPROVER_requires(__verif_cop.depth == depth)
 __CPROVER_ensures(__verif_cop.depth == __CPROVER_old(__verif_cop.depth))
 #endif
+/* completeness corner (C15: values transfer): an EMPTY array - tag, element type, count 0 - is accepted and consumes exactly its
+   6 bytes, also when it is the last thing in the payload (no bytes after it) */
+__CPROVER_ensures((depth == 0 && buf_size >= 6 && buf[0] == TAG_ARRAY && buf[2] == 0 && buf[3] == 0 && buf[4] == 0 && buf[5] == 0) ==>
+                  __CPROVER_return_value == 6)
 __CPROVER_requires(VERIF_FRESH(buf, buf_size))
 #ifdef COP_ALLOC_BOUND
 /* every caller hands a received payload: cop_recv_header has checked payload_len <= COP_MAX_PAYLOAD (C16.recv.header) */
